@@ -88,8 +88,29 @@ def one_cell_axis(case):
             if not (-1e-6 * max(1.0, sabs) <= tot <= 1.0 + 1e-6 * max(1.0, sabs)) and float(np.min(F[k])) >= 0.0:
                 viol.append({"what": "footprint_weights_do_not_sum_to_one", "level": k, "sum": tot, "precision": prec, "setup": desc, "meas_pt": mp,
                              "note": "non-negative weights over part of the periodic domain sum to more than one"})
+    ncalls = 2
+    if hk == "wide":
+        # (iv) on the one-cell-wide grid: a halo of whole cells equals the caller padding by those cells (also along the one-cell axis),
+        # enlarging the domain and cropping
+        px_, py_ = int(halo / (S1["domain"][0] / nx)), int(halo / (S1["domain"][1] / ny))
+        qpad = np.pad(q0, ((py_, py_), (px_, px_)))
+        Sp = dict(S1, domain=(S1["domain"][0] + 2 * px_ * dx, S1["domain"][1] + 2 * py_ * dy), halo=0.0)
+        _, ch, fh = solve.solve(S1, q0, levels, precision=prec)
+        _, cp, fpd = solve.solve(Sp, qpad, levels, precision=prec)
+        ncalls += 2
+        ch, fh = np.asarray(ch).reshape(nl, ny, nx), np.asarray(fh).reshape(nl, ny, nx)
+        cp = np.asarray(cp).reshape(nl, ny + 2 * py_, nx + 2 * px_)[:, py_: py_ + ny, px_: px_ + nx]
+        fpd = np.asarray(fpd).reshape(nl, ny + 2 * py_, nx + 2 * px_)[:, py_: py_ + ny, px_: px_ + nx]
+        tolh = solve.tol(prec, St["G"], cr=St["cr"])
+        sc_c, sc_f = solve.amp_scales(S1, q0)
+        for nm_, a_, b_, sc_ in (("conc", ch, cp, sc_c), ("flx", fh, fpd, sc_f)):
+            e = float(np.max(np.abs(a_ - b_))) / max(float(np.max(np.abs(b_))), sc_, 1e-300)
+            resid[f"one_cell_axis_halo_vs_pad_{prec}"] = max(resid.get(f"one_cell_axis_halo_vs_pad_{prec}", 0.0), e)
+            if not e <= tolh:
+                viol.append({"what": "halo_not_equivalent_to_pad_and_crop", "field": nm_, "rel": e, "tol": tolh, "pad": (px_, py_), "precision": prec, "setup": desc,
+                             "note": "grid one cell wide"})
     return {"evals": 2 * nl, "nontrivial": True, "sig": f"one|{case['idx']}", "buckets": {f"one_cell_axis:{axis}:{hk}": 1, f"prec:{prec}": 1},
-            "resid": resid, "counters": {"solver_calls": 2, "one_cell_axis_grids": 1}, "violations": viol,
+            "resid": resid, "counters": {"solver_calls": ncalls, "one_cell_axis_grids": 1}, "violations": viol,
             "sample": {"setup": desc, "levels": levels}}
 
 
